@@ -47,6 +47,9 @@ void iolog_reset(void);    /* free everything */
 /* violations found by the monitor are reported through v_violation("C14", ...) */
 /* rebuild file image after the first k events (writes/truncs), plus 'partial' bytes of the next write */
 size_t iolog_image(size_t k_events, size_t partial, uint8_t **out);
+/* from now on the library sees a hole of `len` bytes at file offset `at` (normally the current end) that the real file does
+ * not have: positions beyond 2^32 without the bytes.  len 0 switches it off. */
+void iolog_far_hole(int64_t at, int64_t len);
 /* number of write/trunc events */
 size_t iolog_mutations(void);
 /* index (into ev[]) of the k-th mutation */
